@@ -199,7 +199,9 @@ func runRot(c *eng.Ctx, cf cfg) {
 		}
 		ev := e.newEval(gals)
 		judge := func(apih string, k int, out *rlwe.Ciphertext, variant string) {
-			what := func() string { return fmt.Sprintf("%s %s k=%d of list %v level=%d slots=%d", tag, variant, k, rots, lin, slots) }
+			what := func() string {
+				return fmt.Sprintf("%s %s k=%d of list %v level=%d slots=%d", tag, variant, k, rots, lin, slots)
+			}
 			gRef := refGal(k, e.nth)
 			c.Distinct(fmt.Sprintf("rot/%s/%s/%s/L%d", tag, kClass(k, e.S), variant, lin), gRef != 1)
 			if out == nil {
